@@ -4043,7 +4043,16 @@ class IniFileStore(Store):
         if value and isinstance(value, str):
             # _unquote doesn't handle None nor empty strings nor anything that
             # is not a string, really.
-            value = self._config_obj._unquote(value)
+            if (
+                len(value) >= 6
+                and value[:3] == value[-3:]
+                and value[:3] in ('"""', "'''")
+            ):
+                # quote() uses triple quotes for values containing a newline
+                # or both kinds of quotes, _unquote only strips single ones.
+                value = value[3:-3]
+            else:
+                value = self._config_obj._unquote(value)
         return value
 
     def external_url(self):
